@@ -57,7 +57,7 @@ HasMissing(inp) == \E i \in 1..inp.n : Cell(inp, i) = NULL
    whatever the dtype of the level: for the layout the column is then a categorical one *)
 AsCat(inp) == inp.cls.cat \/ inp.opt = "index2"
 Sentinel(inp) == IF inp.opt = "index2" THEN "CAT" ELSE inp.cls.sentinel
-Bpe8(inp) == IF inp.opt = "index2" THEN 8 ELSE inp.cls.bpe8
+Bpe8(inp) == IF inp.opt = "index2" /\ ~inp.cls.cat THEN 8 ELSE inp.cls.bpe8     \* one-byte codes for a level of <= 7 labels
 (* a row index of object dtype holding text becomes a column of the string dtype when the index is reset (pandas 3) *)
 DtypeO(inp) == inp.cls.dtypeO /\ inp.opt # "index2" /\ ~(inp.opt = "index" /\ inp.cls.name \in {"obj_str", "obj_str_e"})
 Optional(inp) == inp.mode = "true" \/ (inp.mode = "infer" /\ DtypeO(inp))
